@@ -129,7 +129,7 @@ func persistedWindows(store db.KeyValueStore) []uint64 {
 }
 
 func (t *trace) blkObs(store db.KeyValueStore, n uint64) string {
-	hdr, nbh, txs, su, cm := "-", "-", "-", "-", "-"
+	hdr, nbh, txs, txl, su, cm := "-", "-", "-", "-", "-", "-"
 	if h, err := core.GetBlockHeaderByNumber(store, n); err == nil {
 		hdr = fmt.Sprint(t.ids.of(h.Hash))
 		if k, err := core.GetBlockHeaderNumberByHash(store, h.Hash); err == nil {
@@ -138,6 +138,13 @@ func (t *trace) blkObs(store db.KeyValueStore, n uint64) string {
 	}
 	if x, err := core.GetTransactionsByBlockNumber(store, n); err == nil {
 		txs = fmt.Sprint(len(x))
+		k := 0
+		for _, tx := range x {
+			if _, err := core.TransactionBlockNumbersAndIndicesByHashBucket.Get(store, (*felt.TransactionHash)(tx.Hash())); err == nil {
+				k++
+			}
+		}
+		txl = fmt.Sprint(k)
 	}
 	if _, err := core.GetStateUpdateByBlockNum(store, n); err == nil {
 		su = "y"
@@ -145,7 +152,7 @@ func (t *trace) blkObs(store db.KeyValueStore, n uint64) string {
 	if _, err := core.GetBlockCommitmentByBlockNum(store, n); err == nil {
 		cm = "y"
 	}
-	return fmt.Sprintf("hdr=%s nbh=%s txs=%s su=%s cm=%s", hdr, nbh, txs, su, cm)
+	return fmt.Sprintf("hdr=%s nbh=%s txs=%s txl=%s su=%s cm=%s", hdr, nbh, txs, txl, su, cm)
 }
 
 // observeDisk reads everything from a store (never through a live node).
@@ -176,6 +183,10 @@ func (t *trace) observeDisk(store db.KeyValueStore, full bool) diskObs {
 	o.Floor = "-"
 	if f, err := pruner.OldestRetainedBlock(store); err == nil {
 		o.Floor = fmt.Sprint(f)
+		o.AtFloor = t.blkObs(store, f)
+		if f > 0 {
+			o.BelowFloor = t.blkObs(store, f-1)
+		}
 	}
 	los := persistedWindows(store)
 	if len(los) > 0 {
@@ -350,6 +361,14 @@ func (t *trace) script() (lines, want []string) {
 		}
 		if pr {
 			add("floor", o.Floor)
+			if o.Floor != "-" {
+				var fl uint64
+				fmt.Sscan(o.Floor, &fl)
+				add(fmt.Sprintf("blkobs %d", fl), o.AtFloor)
+				if fl > 0 {
+					add(fmt.Sprintf("blkobs %d", fl-1), o.BelowFloor)
+				}
+			}
 		}
 		hn := uint64(0)
 		if o.H != "-" {
